@@ -1203,3 +1203,131 @@ STMTS.extend([
     ("include-with-literal", "{% include 'p_self' with 'lit' %}{% include 'p_use' for (1..idx) as x %}"),
     ("render-with-local", "{% assign gs = \"Hello,Goodbye\" | split: \",\" %}{% render \"greeting\" with gs.first %}"),
 ])
+
+
+# ---------------------------------------------------------------------------------------
+# drops that combine the documented protocols, standing where dicts / lists stand.
+# "Exists in the data" is decided by the drop's own __getitem__ / __contains__.
+# ---------------------------------------------------------------------------------------
+class LiquidMapDrop(MapDrop):
+    """Mapping drop that also stands for a primitive (docs: `__liquid__`)."""
+
+    def __init__(self, items, value=None):  # noqa: ANN001
+        super().__init__(items)
+        self._v = value
+
+    def __liquid__(self):  # noqa: ANN204
+        return self._v
+
+    def __repr__(self) -> str:
+        return f"LiquidMapDrop({self._d!r}, {self._v!r})"
+
+    def __tagged__(self):  # noqa: ANN204
+        from .core import to_tagged
+
+        return {"$c16lmap": [to_tagged(self._d), to_tagged(self._v)]}
+
+
+class LiquidSeqDrop(SeqDrop):
+    def __init__(self, items, value=None):  # noqa: ANN001
+        super().__init__(items)
+        self._v = value
+
+    def __liquid__(self):  # noqa: ANN204
+        return self._v
+
+    def __repr__(self) -> str:
+        return f"LiquidSeqDrop({self._items!r}, {self._v!r})"
+
+    def __tagged__(self):  # noqa: ANN204
+        from .core import to_tagged
+
+        return {"$c16lseq": [to_tagged(self._items), to_tagged(self._v)]}
+
+
+class HtmlMapDrop(MapDrop):
+    def __html__(self) -> str:
+        return "<b>drop</b>"
+
+    def __tagged__(self):  # noqa: ANN204
+        from .core import to_tagged
+
+        return {"$c16hmap": to_tagged(self._d)}
+
+
+class StrMapDrop(MapDrop):
+    def __str__(self) -> str:
+        return "drop!"
+
+    def __tagged__(self):  # noqa: ANN204
+        from .core import to_tagged
+
+        return {"$c16smap": to_tagged(self._d)}
+
+
+class AsyncMapDrop(MapDrop):
+    async def __getitem_async__(self, k):  # noqa: ANN001, ANN204
+        return self._d[k]
+
+    def __tagged__(self):  # noqa: ANN204
+        from .core import to_tagged
+
+        return {"$c16amap": to_tagged(self._d)}
+
+
+_LIQUID_VALUES = {"lmap-int": 12, "lmap-str": "twelve", "lmap-true": True, "lmap-false": False,
+                  "lmap-nil": None, "lmap-list": [1, 2]}
+MAP_DROPS = {"htmlmap": HtmlMapDrop, "strmap": StrMapDrop, "asyncmap": AsyncMapDrop}
+SHAPES.extend([("list", k) for k in _LIQUID_VALUES] + [("list", k) for k in MAP_DROPS]
+              + [("lseq", "dict"), ("lseq", "lmap-int"), ("tuple", "asyncmap")])
+
+_reshape_basic = reshape
+
+
+def reshape(o: Any, seq: str, mp: str, top: bool = True) -> Any:  # noqa: F811
+    if mp in _LIQUID_VALUES or mp in MAP_DROPS or seq == "lseq":
+        if isinstance(o, dict):
+            d = {k: reshape(v, seq, mp, False) for k, v in o.items()}
+            if top or mp == "dict":
+                return d
+            if mp in _LIQUID_VALUES:
+                return LiquidMapDrop(d, _LIQUID_VALUES[mp])
+            if mp in MAP_DROPS:
+                return MAP_DROPS[mp](d)
+            return _reshape_basic(d, "list", mp, False) if mp in MAP_SHAPES else d
+        if isinstance(o, list):
+            items = [reshape(v, seq, mp, False) for v in o]
+            if seq == "lseq":
+                return LiquidSeqDrop(items, len(items))
+            return _reshape_basic(items, seq, "dict", False) if seq != "list" else items
+        return o
+    return _reshape_basic(o, seq, mp, top)
+
+
+_untag_basic = untag
+
+
+def untag(o: Any) -> Any:  # noqa: F811
+    if isinstance(o, dict) and len(o) == 1:
+        ((k, v),) = o.items()
+        if k == "$c16lmap":
+            return LiquidMapDrop(untag(v[0]), untag(v[1]))
+        if k == "$c16lseq":
+            return LiquidSeqDrop(untag(v[0]), untag(v[1]))
+        if k == "$c16hmap":
+            return HtmlMapDrop(untag(v))
+        if k == "$c16smap":
+            return StrMapDrop(untag(v))
+        if k == "$c16amap":
+            return AsyncMapDrop(untag(v))
+        if k in ("$c16seq", "$c16map", "$c16ulist", "$c16dict"):
+            inner = untag(v)
+            return {"$c16seq": SeqDrop, "$c16map": MapDrop, "$c16ulist": UList,
+                    "$c16dict": DictSub}[k](inner)
+    if isinstance(o, dict):
+        return {k: untag(v) for k, v in o.items()}
+    if isinstance(o, list):
+        return [untag(v) for v in o]
+    if isinstance(o, tuple):
+        return tuple(untag(v) for v in o)
+    return o
